@@ -196,8 +196,14 @@ func wmFreeRun(seed int64) {
 	if len(batches) == 0 {
 		query()
 	}
-	// Give the batches a chance to finish on their own, then shut down.
-	deadline := time.After(time.Duration(20+rng.Intn(150)) * time.Millisecond)
+	// Give the batches a chance to finish on their own, then shut down; in a
+	// third of the runs Stop comes right away, while workers are still waiting
+	// for answers, running handlers or handing back results.
+	wait := time.Duration(20+rng.Intn(150)) * time.Millisecond
+	if rng.Intn(3) == 0 {
+		wait = time.Duration(rng.Intn(3000)) * time.Microsecond
+	}
+	deadline := time.After(wait)
 	got := make([][]int, len(batches))
 wait:
 	for bi, b := range batches {
